@@ -140,13 +140,15 @@ func (w *rnsWorld) moduleBalance() sdk.Coins {
 func spell(rt *rapid.T, canon string) string {
 	i := strings.LastIndex(canon, ".")
 	name, tld := canon[:i], canon[i+1:]
-	switch rapid.IntRange(0, 9).Draw(rt, "spelling") {
+	switch rapid.IntRange(0, 11).Draw(rt, "spelling") {
 	case 0:
 		return strings.ToUpper(name) + "." + tld
 	case 1:
 		return name + "x" + tld
 	case 2:
 		return name + "-" + tld
+	case 3: // a record-style three-label name handed to a handler that expects "name.tld"
+		return rapid.SampledFrom([]string{"www", "mail", "a", "ab", "abcde"}).Draw(rt, "label") + "." + canon
 	}
 	return canon
 }
